@@ -112,6 +112,31 @@ theorem conversion_halt_witness :
     endBlockOutcome false e = .error .conversion ∧ endBlockOutcome true e = .ok () := by
   constructor <;> rfl
 
+/-- the EdenB burn writes the store before the hook that re-initialises the distribution starting info, so over every history of
+burns and commits (any amounts) the recorded stake never exceeds the stored one and the end-blocker's withdrawal cannot panic -/
+theorem edenB_withdraw_ok (ops : List EdenBOp) :
+    withdrawEdenB (ops.foldl (edenBStep true) {}) = .ok (ops.foldl (edenBStep true) {}) := by
+  have key : ∀ (s : EdenB), s.started ≤ s.stored → (ops.foldl (edenBStep true) s).started ≤ (ops.foldl (edenBStep true) s).stored := by
+    induction ops with
+    | nil => intro s h; exact h
+    | cons op ops ih =>
+      intro s _
+      apply ih
+      cases op <;> simp [edenBStep, burnEdenB, commitEdenB]
+  have := key {} (by decide)
+  unfold withdrawEdenB
+  split
+  · omega
+  · rfl
+
+/-- WITNESS (the shape of seeded change C18-3): 100 000 EdenB committed; a first burn of 10 000 whose hook reads the store before it
+is written leaves the starting info at 100 000 against 90 000 stored: the next withdrawal halts the chain; with the code's order
+it does not. -/
+theorem edenB_stale_start_witness :
+    withdrawEdenB ([EdenBOp.commit 100000, .burn 10000].foldl (edenBStep false) {}) = .error .stake ∧
+    withdrawEdenB ([EdenBOp.commit 100000, .burn 10000].foldl (edenBStep true) {}) = .ok { stored := 90000, started := 90000 } := by
+  constructor <;> rfl
+
 /-- a user transaction that fails (error or recovered panic) leaves the state exactly as it was -/
 theorem tx_isolated {σ : Type} (s : σ) (tx : σ → Except Unit σ) (h : tx s = .error ()) : runTx s tx = s := by
   simp [runTx, h]
